@@ -355,7 +355,7 @@ pub fn run(ctx: &Ctx) -> i32 {
         tier: ctx.tier,
         seed: ctx.seed,
         level: "exploration",
-        rule: "four kinds. (0) real sockets: two Networks on UDP loopback and a 4-worker runtime dial each other simultaneously (barrier, 0-800 us skew) for 150 (thorough 600) rounds; per round both list each other exactly once (a wrong listing is a verdict only when unchanged for 5 s), events alternate N/L and end connected, RPCs succeed both ways, nothing changes in a quiet window. (1) pure decision: the real tie-break function on random and structured identity pairs for all origin pairs; both sides and both arrival orders must keep the same dial, equal to 'dialed by the greater PeerId'. (2) direct drive: two bare endpoints, two real connections (one dialed each way), a stand-alone active-peer set per side; ALL 24 orders of the four registrations, followed by the late handler exits of the replaced connections in both orders; each side ends with one entry for the same physical connection, survivor open, loser closed, events N or NLN. (3) scenario = two real Networks on the simulated fabric dialing each other with a seeded start offset in [-3RTT,3RTT], per-direction random latency, optional loss/dup; non-trivial = both dials completed; distinct by (id order, per-side NewPeer/LostPeer sequence, which dial survived)".into(),
+        rule: "four kinds. (0) real sockets: two Networks on UDP loopback and a 4-worker runtime dial each other simultaneously (barrier, 0-800 us skew) for 150 (thorough 600) rounds; per round both list each other exactly once (a wrong listing is a verdict only when unchanged for 5 s), events alternate N/L and end connected, RPCs succeed both ways, nothing changes in a quiet window. (1) pure decision: the real tie-break function on random and structured identity pairs for all origin pairs; both sides and both arrival orders must keep the same dial, equal to 'dialed by the greater PeerId'. (2) direct drive: two bare endpoints, two real connections (one dialed each way), a stand-alone active-peer set per side; ALL 24 orders of the four registrations, followed by the late handler exits of the replaced connections in both orders; each side ends with one entry for the same physical connection, survivor open, loser closed, events N or NLN. (3) scenario = two real Networks on the simulated fabric dialing each other with a seeded start offset in [-3RTT,3RTT], per-direction random latency, optional loss/dup; non-trivial = both dials completed; distinct by (id order, per-side NewPeer/LostPeer sequence, which dial survived) In (3) either side may dial through the background dialer (High-affinity table entry, connectivity check every 50-300 ms) instead of connect(), either side may have a connection limit of 1-2, and one scenario in ten starts the second dial 0.5-6 s late; with a background side any strictly alternating event sequence that starts and ends connected is accepted, and a sampler (every virtual millisecond through the dials) asserts that once both sides have listed each other there is never an instant at which neither does. (0) contains one round per scenario whose second dial completes 2-3 real seconds after the first.".into(),
         assumptions: vec![
             "QUIC/TLS run on tokio's virtual clock over an in-memory datagram fabric (socket hook)".into(),
             "interleavings are those produced by seeded latencies/offsets, not an enumeration".into(),
